@@ -23,14 +23,14 @@ Qed.
 
 Definition rename_ocode (f : string -> string) (o : ocode) : ocode :=
   match o with
-  | OJcc n (JLabel l) => OJcc n (JLabel (f l))
+  | OJcc md n (JLabel l) => OJcc md n (JLabel (f l))
   | _ => o
   end.
 
 (* branches and data: same bytes under a consistent injective renaming of the symbol table *)
 Lemma gen_rename E m st dol len f o :
   (forall l k, In k (map fst st) -> f k = f l -> k = l) ->
-  match o with OInstr _ _ => False | _ => True end ->
+  match o with OInstr _ _ _ => False | _ => True end ->
   gen_ocode E m (rename_sym f st) dol len (rename_ocode f o) = gen_ocode E m st dol len o.
 Proof.
   intros Hinj Hno. destruct o; cbn [rename_ocode gen_ocode]; try reflexivity; try contradiction.
